@@ -139,7 +139,15 @@ static void check_pollin(const char *when)
 
 static void c_recv(int is_event)
 {
-	ssize_t r = is_event ? qb_ipcc_event_recv(CC, rbuf, sizeof rbuf, 0) : qb_ipcc_recv(CC, rbuf, sizeof rbuf, 0);
+	ssize_t r;
+	if (drain_phase && transport == 0) {
+		/* a receive into a buffer that is too small for any message reports an error and takes nothing: the receive that
+		   follows gets the message (shared-memory transport; the socket transport has no message boundaries to refuse at) */
+		ssize_t r0 = is_event ? qb_ipcc_event_recv(CC, rbuf, 8, 0) : qb_ipcc_recv(CC, rbuf, 8, 0);
+		vp_log("  C: %s(8-byte buffer, 0 ms) = %zd", is_event ? "event_recv" : "recv", r0);
+		if (r0 >= 0) vp_fail("%s into an 8-byte buffer returned %zd", is_event ? "event_recv" : "recv", r0);
+	}
+	r = is_event ? qb_ipcc_event_recv(CC, rbuf, sizeof rbuf, 0) : qb_ipcc_recv(CC, rbuf, sizeof rbuf, 0);
 	vp_log("  C: %s(0 ms) = %zd", is_event ? "event_recv" : "recv", r);
 	if (r >= 0) {
 		if (is_event && evh == evt && IF_EV.valid && !IF_EV.delivered) { EV[evt] = IF_EV.m; evt++; IF_EV.delivered = 1; }
